@@ -38,7 +38,7 @@ def main():
         setup_cmd="cd lean && lake build Qv driver",
         hooks=dict(guard="JTIOSUE_QUBOVERT_VERIF", enable="export JTIOSUE_QUBOVERT_VERIF=1 (set by ./check); hooks are pure-Python, no rebuild needed",
                    baseline_off_cmd="cd /repo && env -u JTIOSUE_QUBOVERT_VERIF /venv/bin/python -m pytest -ra -q -p no:cacheprovider --timeout=900 --continue-on-collection-errors",
-                   source_commits=[], add_only=True),
+                   source_commits=["9737c30"], add_only=True),
         engines=[dict(name="lean4-model+correspondence", path="lean/ , harness/", serves_properties=sorted(CHECKS),
                       kind_free_text="Lean 4 theorems about a hand-written executable model (lean/Qv/Model, proofs in lean/Qv/Proofs, property theorems in lean/Qv/Props); "
                                      "Python harness (harness/) runs the real qubovert code and the compiled Lean driver on the same cases and diffs canonical results; direct oracles search for failing inputs")],
